@@ -58,6 +58,7 @@ structure Row where
   fw : Nat
   loc : Nat         -- 0 path 1 query 2 header 3 cookie
   kind : Nat        -- 0 styled 1 json 2 pass-through
+  ty : Nat          -- 0 str 1 int32 2 bool 3 date 4 uuid 5 int array 6 object
   required : Bool
   stimulus : Nat
   errh : Bool       -- a recording error handler was installed
@@ -82,5 +83,15 @@ def rowOk (r : Row) : Bool :=
     !r.handlerRan && r.status == 400 && (!(r.errh && hasErrHandler r.fw) || r.errKinds == 1)
   else
     r.handlerRan && r.status == 204 && r.errKinds == 0
+
+/-- Cells where the unchanged tree is known to violate the statement (genuine defects recorded in
+/verif/known-findings.txt; both live outside /repo's own code: fiber's header API and the pinned
+runtime's handling of a missing required Date). Kept as narrow as the defect. -/
+def knownDeviation (r : Row) : Bool :=
+  -- fiber: a repeated header is invisible to the wrapper
+  (r.fw == 5 && r.loc == 2 && r.stimulus == 8 && r.handlerRan && r.status == 204) ||
+  -- echo / fiber / iris: missing required date query parameter is not rejected by the runtime
+  ((r.fw == 1 || r.fw == 5 || r.fw == 6) && r.loc == 1 && r.kind == 0 && r.ty == 3 && r.required &&
+    r.stimulus == 0 && r.handlerRan && r.status == 204)
 
 end OapiVerif.Reject
